@@ -720,6 +720,12 @@ impl Check for FireCheck {
         run.set("aux_rule", rng.chance(1, 3) as i64);
         run.set("crate_rewrite", rng.chance(1, 2) as i64);
         run.set("warm_rules", Rng::stream(seed, "warm").chance(1, 4) as i64);
+        // scale scenario (own stream): thousands of instances of one left side in one call
+        let mut sr = Rng::stream(seed, "scale");
+        if self.id == "C04" && sr.chance(1, 1500) {
+            run.set("scale_n", 1200 + sr.below(5000) as i64);
+            run.set("scale_shape", sr.below(3) as i64);
+        }
         let mut f = Rng::stream(seed, "faults");
         if f.chance(1, 2) {
             run.set("hash_seed", (f.next() >> 1) as i64 | 1);
@@ -754,6 +760,9 @@ impl Check for FireCheck {
         }
     }
     fn exec(&self, run: &Run) -> Outcome {
+        if run.get("scale_n") > 0 {
+            return exec_fire_scale(run);
+        }
         let mut out = Outcome::default();
         seam::apply(&run.knobs());
         let mut s: Sess<LS, ()> = Sess::new(EGraph::new(()), run.get("naming") as u32);
@@ -1029,4 +1038,105 @@ impl Check for FireCheck {
         out.nontrivial = out.discarded.is_none() && !vars.is_empty() && (self.id != "C07R" || out.counters.get("rule_leaves_checked").copied().unwrap_or(0) > 0);
         out
     }
+}
+
+
+/// C04 at scale: N distinct instances of one left side, every one of them must fire in one call.
+/// (The other scenario plants a single instance; limits on the number of matches or substitutions
+/// handled per call do not show there.)
+fn exec_fire_scale(run: &Run) -> Outcome {
+    let mut out = Outcome::default();
+    seam::apply(&run.knobs());
+    let n = run.get("scale_n").clamp(1, 20_000) as u32;
+    let shape = run.get("scale_shape").rem_euclid(3);
+    let mut s: Sess<LS, ()> = Sess::new(EGraph::new(()), run.get("naming") as u32);
+    // instance i: shape 0: (u k:i)   shape 1: (g $0 k:i)   shape 2: (b k:i (p1 $1))
+    let left = |i: u32| -> Tm {
+        let k = Tm::pay("k", 100 + i);
+        match shape {
+            0 => Tm::node("u", vec![], vec![(vec![], k)]),
+            1 => Tm::node("g", vec![0], vec![(vec![], k)]),
+            _ => Tm::node("b", vec![], vec![(vec![], k), (vec![], Tm::leaf("p1", vec![1]))]),
+        }
+    };
+    let right = |i: u32| -> Tm {
+        let k = Tm::pay("k", 100 + i);
+        match shape {
+            0 => Tm::node("b", vec![], vec![(vec![], k.clone()), (vec![], k)]),
+            1 => Tm::node("b", vec![], vec![(vec![], Tm::leaf("p1", vec![0])), (vec![], k)]),
+            _ => Tm::node("g", vec![1], vec![(vec![], k)]),
+        }
+    };
+    let (l, r) = match shape {
+        0 => ("(u ?0)", "(b ?0 ?0)"),
+        1 => ("(g $0 ?0)", "(b (p1 $0) ?0)"),
+        _ => ("(b ?0 (p1 $1))", "(g $1 ?0)"),
+    };
+    let (Ok(lp), Ok(rp)) = (parse_pat(l), parse_pat(r)) else { panic!("harness: scale patterns") };
+    let built = catch_op(|| {
+        for i in 0..n {
+            let re = to_re::<LS>(&left(i), &mut s.nm);
+            s.eg.add_expr(re);
+        }
+    });
+    if built.is_err() {
+        out.discarded = Some("panic".into());
+        return out;
+    }
+    let cl: Pattern<LS> = lp.to_pattern::<LS>(&mut s.nm);
+    let cr: Pattern<LS> = rp.to_pattern::<LS>(&mut s.nm);
+    let rules: Vec<Rewrite<LS, ()>> = if run.get("crate_rewrite") != 0 {
+        match catch_op(|| Rewrite::<LS, ()>::new("rule", &cl.to_string(), &cr.to_string())) {
+            Ok(rw) => vec![rw],
+            Err(_) => {
+                out.discarded = Some("rule_unparsable".into());
+                return out;
+            }
+        }
+    } else {
+        let (cl2, cr2, cl3) = (cl.clone(), cr.clone(), cl.clone());
+        vec![RewriteT {
+            searcher: Box::new(move |eg: &EGraph<LS, ()>| ematch_all(eg, &cl3)),
+            applier: Box::new(move |substs: Vec<Subst>, eg: &mut EGraph<LS, ()>| {
+                for sb in substs {
+                    eg.union_instantiations(&cl2, &cr2, &sb, Some("rule".to_string()));
+                }
+            }),
+        }
+        .into()]
+    };
+    if catch_op(|| apply_rewrites(&mut s.eg, &rules)).is_err() {
+        out.discarded = Some("panic_in_rewrite".into());
+        return out;
+    }
+    out.ops_executed = 1;
+    out.bump("scale_runs");
+    let res = catch_op(|| -> Option<Violation> {
+        for i in 0..n {
+            let (li, ri) = (left(i), right(i));
+            let lre = to_re::<LS>(&li, &mut s.nm);
+            let rre = to_re::<LS>(&ri, &mut s.nm);
+            let Some(hl) = lookup_rec_expr(&lre, &s.eg) else {
+                return Some(viol("C04", "instance_fires", format!("scale: the inserted instance {li} is no longer represented"), 0));
+            };
+            match lookup_rec_expr(&rre, &s.eg) {
+                None => return Some(viol("C04", "instance_fires", format!("rule {l} => {r} with {n} instances in one call: {li} was represented, but afterwards the right instance {ri} is not"), 0)),
+                Some(hr) => {
+                    if !s.eg.eq(&hl, &hr) {
+                        return Some(viol("C04", "instance_fires", format!("rule {l} => {r} with {n} instances in one call: {ri} is represented but not equal to {li}"), 0));
+                    }
+                }
+            }
+        }
+        None
+    });
+    match res {
+        Err(_) => out.discarded = Some("panic_in_query".into()),
+        Ok(Some(v)) => out.violations.push(v),
+        Ok(None) => out.count("instances_fired", n as u64),
+    }
+    finish_counters(&mut out, run);
+    out.log_hash = crate::rng::hash_str(&format!("scale/{}", s.eg.total_number_of_nodes()));
+    out.nontrivial = out.discarded.is_none();
+    out
 }
